@@ -543,7 +543,11 @@ func (ex *Exec) finalAbrupt(o outcome, pos token.Pos) {
 		return // callers do not consider a panic of this function
 	}
 	ex.withCond(o.cond, o.st, func() {
-		defer ex.frameCheck(pos) // callers apply the frame to the panicking exit as well
+		defer func() { // callers apply the frame to the panicking exit as well
+			ex.abruptExit = true
+			ex.frameCheck(pos)
+			ex.abruptExit = false
+		}()
 		m := ex.resultMap(nil)
 		m["panicValue"] = *o.pv
 		for _, p := range ex.con.ExitVars {
